@@ -181,6 +181,7 @@ impl<K: KeyT> World<K> {
             match res {
                 Caught::Ok(Ok(c)) => {
                     self.slots[b] = Slot { obj: Obj::Rodeo(c), shadow: self.slots[a].shadow.clone(), born: "C12" };
+                    self.slots[b].shadow.limit = None;
                     // the copy holds no static references: everything was copied into its arena
                     for s in self.slots[b].shadow.stat.iter_mut() {
                         *s = None;
@@ -231,7 +232,9 @@ impl<K: KeyT> World<K> {
             let src_shadow = sb.shadow.clone();
             match res {
                 Caught::Ok(Ok(())) => {
+                    let keep = self.slots[a].shadow.limit;
                     self.slots[a].shadow = src_shadow;
+                    self.slots[a].shadow.limit = keep;
                     self.slots[a].born = "C12";
                     for s in self.slots[a].shadow.stat.iter_mut() {
                         *s = None;
